@@ -1,4 +1,418 @@
-import BipVerif.Model.Bip44
+/-
+C07 — BIP-44/49/84/86/CIP-1852 hierarchy (`Bip44Base`): level discipline of the five derivation
+methods and `DeriveDefaultPath`, the child numbers they ask for, the depth/public-only invariant of
+wrapped objects along arbitrary op sequences, refinement of the canonical
+purpose/coin/account/change/address sequence to plain BIP-32 path derivation, `DeriveDefaultPath`
+as the manual sequence, and the behaviour of public-only objects.
+
+All cryptography is opaque: the proofs use only which record fields `ChildKey` sets and the
+refusals that precede any cryptographic computation (`Lemmas/Bip32Nodes.lean`).
+
+Vocabulary (from `Lemmas/Bip44.lean`): `Inv nd := nd.depth ≤ 5 ∧ (nd.isPublicOnly → 3 ≤ nd.depth)`;
+`B44Op.level` (0,1,2,3,4 for purpose/coin/account/change/addrIdx, 0 for deriveDefault);
+`B44Op.typeOk` (`change c` needs `c ≤ 1`); `b44ChildIdx purpose coinIdx psup op` the child number of
+a single-level op; `NeuterSafe` "every `.neuter` reached by the run happens at depth ≥ 3".
+-/
+import BipVerif.Lemmas.Bip44
+
 namespace BipVerif.Props.C07
-theorem placeholder : True := trivial
+open BipVerif BipVerif.Model
+
+variable (purpose coinIdx : Nat) (defPath : Path)
+
+/-! ### 1. level discipline -/
+
+/-- uniform statement: a well-typed derivation op applied to an object that is not at the op's
+level fails with `Bip44DepthError` -/
+theorem step_level_error_uniform (nd : Node) (op : B44Op) (L : Nat) (hl : op.level = some L)
+    (ht : op.typeOk = true) (hd : nd.depth ≠ L) :
+    b44Step purpose coinIdx defPath nd op = .error .depth := by
+  cases op with
+  | deriveDefault =>
+    cases hl
+    rw [b44Step_deriveDefault, if_pos hd]
+  | neuter => cases hl
+  | reimportX => cases hl
+  | reimportRaw d => cases hl
+  | purpose | coin | account _ | change _ | addrIdx _ =>
+    rw [b44Step_child purpose coinIdx defPath nd _ _ rfl]
+    have : ¬ some L = some nd.depth := fun e => hd (Option.some.inj e).symm
+    simp [ht, hl, this]
+
+/-- **level discipline**, spelled out per method -/
+theorem step_level_error (nd : Node) :
+    (nd.depth ≠ 0 → b44Step purpose coinIdx defPath nd .purpose = .error .depth) ∧
+    (nd.depth ≠ 1 → b44Step purpose coinIdx defPath nd .coin = .error .depth) ∧
+    (∀ i, nd.depth ≠ 2 → b44Step purpose coinIdx defPath nd (.account i) = .error .depth) ∧
+    (∀ c, c ≤ 1 → nd.depth ≠ 3 → b44Step purpose coinIdx defPath nd (.change c) = .error .depth) ∧
+    (∀ i, nd.depth ≠ 4 → b44Step purpose coinIdx defPath nd (.addrIdx i) = .error .depth) ∧
+    (nd.depth ≠ 0 → b44Step purpose coinIdx defPath nd .deriveDefault = .error .depth) :=
+  ⟨step_level_error_uniform purpose coinIdx defPath nd _ 0 rfl rfl,
+   step_level_error_uniform purpose coinIdx defPath nd _ 1 rfl rfl,
+   fun _ => step_level_error_uniform purpose coinIdx defPath nd _ 2 rfl rfl,
+   fun c hc => step_level_error_uniform purpose coinIdx defPath nd _ 3 rfl
+     (by simp [B44Op.typeOk, hc]),
+   fun _ => step_level_error_uniform purpose coinIdx defPath nd _ 4 rfl rfl,
+   step_level_error_uniform purpose coinIdx defPath nd _ 0 rfl rfl⟩
+
+/-- the `Bip44Changes` enum check precedes the level check: `TypeError` at every level -/
+theorem step_change_type_error (nd : Node) (c : Nat) (hc : c > 1) :
+    b44Step purpose coinIdx defPath nd (.change c) = .error .type := by
+  rw [b44Step_child purpose coinIdx defPath nd _ _ rfl]
+  have : ¬ c ≤ 1 := by omega
+  simp [B44Op.typeOk, this]
+
+/-! ### 2. successful steps -/
+
+/-- uniform statement: a successful single-level op was applied at its level with a well-typed
+argument, and the result is the `ChildKey` at the prescribed child number -/
+theorem step_ok_child (nd nd' : Node) (op : B44Op) (idx : Nat)
+    (hi : b44ChildIdx purpose coinIdx (pubDerivationSupported nd) op = some idx)
+    (h : b44Step purpose coinIdx defPath nd op = .ok nd') :
+    op.typeOk = true ∧ op.level = some nd.depth ∧ childKey nd idx = .ok nd' ∧
+      nd'.depth = nd.depth + 1 ∧ nd'.index = idx ∧ nd'.curve = nd.curve ∧ nd'.scheme = nd.scheme ∧
+      nd'.parentFp = nd.fingerprint.take 4 ∧ nd'.isPublicOnly = nd.isPublicOnly ∧ idx < 2 ^ 32 := by
+  obtain ⟨ht, hl, hck, _⟩ := b44Step_child_ok hi h
+  have hc := childKey_ok hck
+  exact ⟨ht, hl, hck, hc.depth, hc.index, hc.curve, hc.scheme, hc.parentFp, hc.isPublicOnly, hc.idx_lt⟩
+
+/-- **depth, curve, scheme and child number of a successful derivation**, per method: the child
+number is `purpose'`, `coin'`, `account'`, and `change` / `address_index` non-hardened where the
+derivator supports public derivation and hardened elsewhere -/
+theorem step_ok_depth (nd nd' : Node) :
+    (b44Step purpose coinIdx defPath nd .purpose = .ok nd' →
+      nd.depth = 0 ∧ nd'.depth = nd.depth + 1 ∧ nd'.curve = nd.curve ∧ nd'.scheme = nd.scheme ∧
+        nd'.index = harden purpose) ∧
+    (b44Step purpose coinIdx defPath nd .coin = .ok nd' →
+      nd.depth = 1 ∧ nd'.depth = nd.depth + 1 ∧ nd'.curve = nd.curve ∧ nd'.scheme = nd.scheme ∧
+        nd'.index = harden coinIdx) ∧
+    (∀ i, b44Step purpose coinIdx defPath nd (.account i) = .ok nd' →
+      nd.depth = 2 ∧ nd'.depth = nd.depth + 1 ∧ nd'.curve = nd.curve ∧ nd'.scheme = nd.scheme ∧
+        nd'.index = harden i) ∧
+    (∀ c, b44Step purpose coinIdx defPath nd (.change c) = .ok nd' →
+      c ≤ 1 ∧ nd.depth = 3 ∧ nd'.depth = nd.depth + 1 ∧ nd'.curve = nd.curve ∧
+        nd'.scheme = nd.scheme ∧
+        nd'.index = if pubDerivationSupported nd then c else harden c) ∧
+    (∀ i, b44Step purpose coinIdx defPath nd (.addrIdx i) = .ok nd' →
+      nd.depth = 4 ∧ nd'.depth = nd.depth + 1 ∧ nd'.curve = nd.curve ∧ nd'.scheme = nd.scheme ∧
+        nd'.index = if pubDerivationSupported nd then i else harden i) := by
+  refine ⟨fun h => ?_, fun h => ?_, fun i h => ?_, fun c h => ?_, fun i h => ?_⟩
+  · obtain ⟨_, hl, _, hd, hi, hc, hs, _⟩ := step_ok_child purpose coinIdx defPath nd nd' _ _ rfl h
+    exact ⟨(Option.some.inj hl).symm, hd, hc, hs, hi⟩
+  · obtain ⟨_, hl, _, hd, hi, hc, hs, _⟩ := step_ok_child purpose coinIdx defPath nd nd' _ _ rfl h
+    exact ⟨(Option.some.inj hl).symm, hd, hc, hs, hi⟩
+  · obtain ⟨_, hl, _, hd, hi, hc, hs, _⟩ := step_ok_child purpose coinIdx defPath nd nd' _ _ rfl h
+    exact ⟨(Option.some.inj hl).symm, hd, hc, hs, hi⟩
+  · obtain ⟨ht, hl, _, hd, hi, hc, hs, _⟩ := step_ok_child purpose coinIdx defPath nd nd' _ _ rfl h
+    exact ⟨by simpa [B44Op.typeOk] using ht, (Option.some.inj hl).symm, hd, hc, hs, hi⟩
+  · obtain ⟨_, hl, _, hd, hi, hc, hs, _⟩ := step_ok_child purpose coinIdx defPath nd nd' _ _ rfl h
+    exact ⟨(Option.some.inj hl).symm, hd, hc, hs, hi⟩
+
+/-- a successful `DeriveDefaultPath` (relative default path) starts at a master node and lands
+`2 + |default path|` levels down on the same curve and scheme; its child number is the last
+element of the default path (`coin'` for an empty default path) -/
+theorem step_ok_depth_deriveDefault (nd nd' : Node) (hrel : defPath.absolute = false)
+    (h : b44Step purpose coinIdx defPath nd .deriveDefault = .ok nd') :
+    nd.depth = 0 ∧ nd'.depth = 2 + defPath.elems.length ∧ nd'.curve = nd.curve ∧
+      nd'.scheme = nd.scheme ∧ nd'.index = defPath.elems.getLast?.getD (harden coinIdx) ∧
+      nd'.isPublicOnly = nd.isPublicOnly ∧ Inv nd' := by
+  have hinv : Inv nd' := b44Step_inv (by simp) h
+  rw [b44Step_deriveDefault] at h
+  split at h
+  · cases h
+  · rename_i h0
+    have h0 : nd.depth = 0 := by simpa using h0
+    obtain ⟨a, ha, h⟩ := R.bind_eq_ok.1 h
+    obtain ⟨b, hb, h⟩ := R.bind_eq_ok.1 h
+    obtain ⟨r, hr, h⟩ := R.bind_eq_ok.1 h
+    obtain ⟨rfl, _⟩ := (b44Admit_ok_iff r nd').1 h
+    have hca := childKey_ok (b44Child_ok_iff.1 ha).1
+    have hcb := childKey_ok (b44Child_ok_iff.1 hb).1
+    rw [derivePathWith_of_relative _ _ _ hrel] at hr
+    obtain ⟨h1, h2, h3, h4, h5, _⟩ := foldlM_childKey_ok _ _ _ hr
+    refine ⟨h0, ?_, h2.trans (hcb.curve.trans hca.curve), h3.trans (hcb.scheme.trans hca.scheme),
+      by rw [h5, hcb.index], h4.trans (hcb.isPublicOnly.trans hca.isPublicOnly), hinv⟩
+    rw [h1, hcb.depth, hca.depth, h0]
+
+/-- an absolute default path can never be derived (the path is applied to a depth-2 object) -/
+theorem step_deriveDefault_absolute (nd nd' : Node) (habs : defPath.absolute = true) :
+    b44Step purpose coinIdx defPath nd .deriveDefault ≠ .ok nd' := by
+  intro h
+  rw [b44Step_deriveDefault] at h
+  split at h
+  · cases h
+  · obtain ⟨a, ha, h⟩ := R.bind_eq_ok.1 h
+    obtain ⟨b, hb, h⟩ := R.bind_eq_ok.1 h
+    obtain ⟨r, hr, h⟩ := R.bind_eq_ok.1 h
+    have hcb := childKey_ok (b44Child_ok_iff.1 hb).1
+    have : b.depth > 0 := by rw [hcb.depth]; omega
+    simp [derivePathWith, habs, this] at hr
+    cases hr
+
+/-- public-derivation support depends on curve and scheme only, hence is constant along every
+successful derivation step (single-level or default path) -/
+theorem step_preserves_pubDerivation (nd nd' : Node) (op : B44Op)
+    (h : b44Step purpose coinIdx defPath nd op = .ok nd') :
+    pubDerivationSupported nd' = pubDerivationSupported nd := by
+  suffices hcs : nd'.curve = nd.curve ∧ nd'.scheme = nd.scheme from
+    pubDerivationSupported_congr hcs.1 hcs.2
+  cases op with
+  | purpose | coin | account _ | change _ | addrIdx _ =>
+    obtain ⟨_, _, _, _, _, hc, hs, _⟩ := step_ok_child purpose coinIdx defPath nd nd' _ _ rfl h
+    exact ⟨hc, hs⟩
+  | deriveDefault =>
+    by_cases hrel : defPath.absolute = false
+    · obtain ⟨_, _, hc, hs, _⟩ := step_ok_depth_deriveDefault purpose coinIdx defPath nd nd' hrel h
+      exact ⟨hc, hs⟩
+    · exact absurd h (step_deriveDefault_absolute purpose coinIdx defPath nd nd' (by simpa using hrel))
+  | neuter => cases h; exact ⟨rfl, rfl⟩
+  | reimportX =>
+    obtain ⟨rfl, _⟩ := (b44Admit_ok_iff nd nd').1 h
+    exact ⟨rfl, rfl⟩
+  | reimportRaw d =>
+    obtain ⟨rfl, _⟩ := (b44Admit_ok_iff _ nd').1 h
+    exact ⟨rfl, rfl⟩
+
+/-! ### 3. the invariant -/
+
+/-- **constructor admissibility**: `Bip44Base.__init__` accepts exactly the private objects of depth
+≤ 5 and the public-only objects of depth 3..5, and returns the object unchanged -/
+theorem ctor_admissible_iff (nd nd' : Node) :
+    b44Admit nd = .ok nd' ↔
+      nd' = nd ∧ (if nd.isPublicOnly then 3 ≤ nd.depth ∧ nd.depth ≤ 5 else nd.depth ≤ 5) := by
+  rw [b44Admit_ok_iff, inv_iff_ctor]
+
+/-- … and every refusal is a `Bip44DepthError` -/
+theorem ctor_inadmissible (nd : Node)
+    (h : ¬ (if nd.isPublicOnly then 3 ≤ nd.depth ∧ nd.depth ≤ 5 else nd.depth ≤ 5)) :
+    b44Admit nd = .error .depth :=
+  b44Admit_of_not_inv (fun hi => h ((inv_iff_ctor nd).1 hi))
+
+theorem ctor_total (nd : Node) : b44Admit nd = .ok nd ∨ b44Admit nd = .error .depth := by
+  rw [b44Admit_eq]; split <;> simp
+
+/-- every successful constructor, derivation or re-import passes the admissibility check;
+`ConvertToPublic` on the wrapped object is the only op that does not -/
+theorem step_inv (nd nd' : Node) (op : B44Op) (hn : op ≠ .neuter)
+    (h : b44Step purpose coinIdx defPath nd op = .ok nd') : Inv nd' :=
+  b44Step_inv hn h
+
+/-- `.neuter` always succeeds; it keeps the invariant exactly from the account level down -/
+theorem step_neuter (nd : Node) :
+    b44Step purpose coinIdx defPath nd .neuter = .ok nd.neuter ∧
+      (Inv nd.neuter ↔ 3 ≤ nd.depth ∧ nd.depth ≤ 5) :=
+  ⟨rfl, inv_neuter_iff nd⟩
+
+/-- **invariant over every op sequence**: if every `.neuter` the run reaches is applied at depth ≥ 3,
+the final object has depth ≤ 5 and is public-only only from the account level down -/
+theorem run_invariant (nd nd' : Node) (ops : List B44Op) (hi : Inv nd)
+    (hs : NeuterSafe purpose coinIdx defPath nd ops)
+    (h : b44Run purpose coinIdx defPath nd ops = .ok nd') : Inv nd' :=
+  b44Run_inv purpose coinIdx defPath ops nd nd' hi hs h
+
+/-- in particular for every op sequence without `.neuter` -/
+theorem run_invariant_no_neuter (nd nd' : Node) (ops : List B44Op) (hi : Inv nd)
+    (hs : B44Op.neuter ∉ ops) (h : b44Run purpose coinIdx defPath nd ops = .ok nd') : Inv nd' :=
+  b44Run_inv purpose coinIdx defPath ops nd nd' hi
+    (neuterSafe_of_not_mem purpose coinIdx defPath ops nd hs) h
+
+/-- the side condition is necessary: `.neuter` above the account level breaks the invariant -/
+theorem neuter_breaks_invariant (nd : Node) (h : nd.depth < 3) :
+    b44Run purpose coinIdx defPath nd [.neuter] = .ok nd.neuter ∧ ¬ Inv nd.neuter := by
+  refine ⟨rfl, fun hi => ?_⟩
+  have := (inv_neuter_iff nd).1 hi
+  omega
+
+/-! ### 4. refinement to plain BIP-32 derivation -/
+
+/-- general form: along any level-consistent sequence of well-typed single-level ops (starting at
+any depth, from any node) the hierarchy object computes plain `ChildKey` chaining — same node on
+success, same error at the same step on failure -/
+theorem run_eq_plain_derivation (nd : Node) (ops : List B44Op) (idxs : List Nat)
+    (h : LevelSeq purpose coinIdx (pubDerivationSupported nd) nd.depth ops idxs) :
+    b44Run purpose coinIdx defPath nd ops = derivePathWith childKey nd ⟨idxs, false⟩ := by
+  rw [derivePathWith_relative]
+  exact b44Run_levelSeq purpose coinIdx defPath ops idxs nd h
+
+/-- **the canonical sequence and each of its prefixes, from a master node**: the run *equals* plain
+derivation along `purpose'/coin'/account'/change/address_index` (as values of `R Node`) -/
+theorem keys_eq_plain_derivation (nd : Node) (h0 : nd.depth = 0) (a c i k : Nat)
+    (hc : c ≤ 1 ∨ k ≤ 3) :
+    b44Run purpose coinIdx defPath nd
+        ([B44Op.purpose, .coin, .account a, .change c, .addrIdx i].take k) =
+      derivePathWith childKey nd
+        ⟨[harden purpose, harden coinIdx, harden a,
+          if pubDerivationSupported nd then c else harden c,
+          if pubDerivationSupported nd then i else harden i].take k, false⟩ := by
+  apply run_eq_plain_derivation
+  rw [h0]
+  rcases k with _ | _ | _ | _ | _ | _ | k
+  · simp [LevelSeq]
+  · simp [LevelSeq, b44ChildIdx, B44Op.typeOk, B44Op.level]
+  · simp [LevelSeq, b44ChildIdx, B44Op.typeOk, B44Op.level]
+  · simp [LevelSeq, b44ChildIdx, B44Op.typeOk, B44Op.level]
+  · have : c ≤ 1 := by omega
+    simp [LevelSeq, b44ChildIdx, B44Op.typeOk, B44Op.level, this]
+  · have : c ≤ 1 := by omega
+    simp [LevelSeq, b44ChildIdx, B44Op.typeOk, B44Op.level, this]
+  · have : c ≤ 1 := by omega
+    simp [LevelSeq, b44ChildIdx, B44Op.typeOk, B44Op.level, this]
+
+/-- forward direction without any hypothesis on the node or on `c`: whenever the run of a prefix of
+the canonical sequence succeeds, plain derivation along the prescribed indices gives the same node -/
+theorem keys_eq_plain_derivation_of_ok (nd nd' : Node) (a c i k : Nat)
+    (h : b44Run purpose coinIdx defPath nd
+        ([B44Op.purpose, .coin, .account a, .change c, .addrIdx i].take k) = .ok nd') :
+    derivePathWith childKey nd
+        ⟨[harden purpose, harden coinIdx, harden a,
+          if pubDerivationSupported nd then c else harden c,
+          if pubDerivationSupported nd then i else harden i].take k, false⟩ = .ok nd' := by
+  rw [← h]
+  symm
+  apply run_eq_plain_derivation
+  apply levelSeq_of_run_ok purpose coinIdx defPath _ _ nd nd' _ h
+  rcases k with _ | _ | _ | _ | _ | _ | k <;> simp [IdxSeq, b44ChildIdx]
+
+/-- converse: from a master node, with a well-typed change value, a successful plain derivation is
+what the run returns -/
+theorem keys_eq_plain_derivation_conv (nd nd' : Node) (h0 : nd.depth = 0) (a c i k : Nat)
+    (hc : c ≤ 1 ∨ k ≤ 3)
+    (h : derivePathWith childKey nd
+        ⟨[harden purpose, harden coinIdx, harden a,
+          if pubDerivationSupported nd then c else harden c,
+          if pubDerivationSupported nd then i else harden i].take k, false⟩ = .ok nd') :
+    b44Run purpose coinIdx defPath nd
+        ([B44Op.purpose, .coin, .account a, .change c, .addrIdx i].take k) = .ok nd' := by
+  rw [keys_eq_plain_derivation purpose coinIdx defPath nd h0 a c i k hc, h]
+
+/-! ### 5. `DeriveDefaultPath` -/
+
+/-- `DeriveDefaultPath` on a master node is `Purpose().Coin()` followed by `DerivePath(default)`
+and the constructor check -/
+theorem defaultPath_unfold (nd : Node) (h0 : nd.depth = 0) :
+    b44Step purpose coinIdx defPath nd .deriveDefault =
+      (b44Step purpose coinIdx defPath nd .purpose >>= fun a =>
+        b44Step purpose coinIdx defPath a .coin >>= fun b =>
+          derivePathWith childKey b defPath >>= b44Admit) := by
+  rw [b44Step_deriveDefault, if_neg (by simp [h0]),
+    b44Step_child purpose coinIdx defPath nd .purpose _ rfl]
+  simp only [B44Op.typeOk, B44Op.level, h0, Bool.true_eq_false, if_false, ne_eq, not_true_eq_false]
+  apply R.bind_congr_ok
+  intro a ha
+  have hca := childKey_ok (b44Child_ok_iff.1 ha).1
+  rw [b44Step_child purpose coinIdx defPath a .coin _ rfl]
+  simp [B44Op.typeOk, B44Op.level, hca.depth, h0]
+
+/-- on a master node, a relative default path of at most three levels is plain derivation along
+`purpose'/coin'/default path` -/
+theorem defaultPath_eq_plain (nd : Node) (h0 : nd.depth = 0) (hrel : defPath.absolute = false)
+    (hlen : defPath.elems.length ≤ 3) :
+    b44Step purpose coinIdx defPath nd .deriveDefault =
+      derivePathWith childKey nd ⟨harden purpose :: harden coinIdx :: defPath.elems, false⟩ := by
+  rw [derivePathWith_relative]
+  exact b44Step_deriveDefault_eq_plain purpose coinIdx defPath nd h0 hrel hlen
+
+/-- **`DeriveDefaultPath` is the manual sequence** `Purpose().Coin().Account(a).Change(c).AddressIndex(i)`
+when the default path is `a'/c/i` on derivators with public derivation, resp. `a'/c'/i'` on the
+others (uniformly: `a'/ci/ii` with the child numbers of item 2) -/
+theorem defaultPath_eq_manual (nd : Node) (h0 : nd.depth = 0) (a c i : Nat) (hc : c ≤ 1) :
+    b44Step purpose coinIdx
+        ⟨[harden a, if pubDerivationSupported nd then c else harden c,
+          if pubDerivationSupported nd then i else harden i], false⟩ nd .deriveDefault =
+      b44Run purpose coinIdx defPath nd [.purpose, .coin, .account a, .change c, .addrIdx i] := by
+  rw [defaultPath_eq_plain purpose coinIdx _ nd h0 rfl (by simp)]
+  exact (keys_eq_plain_derivation purpose coinIdx defPath nd h0 a c i 5 (Or.inl hc)).symm
+
+theorem defaultPath_eq_manual_pub (nd : Node) (h0 : nd.depth = 0) (a c i : Nat) (hc : c ≤ 1)
+    (hp : pubDerivationSupported nd = true) :
+    b44Step purpose coinIdx ⟨[harden a, c, i], false⟩ nd .deriveDefault =
+      b44Run purpose coinIdx defPath nd [.purpose, .coin, .account a, .change c, .addrIdx i] := by
+  have := defaultPath_eq_manual purpose coinIdx defPath nd h0 a c i hc
+  simpa [hp] using this
+
+theorem defaultPath_eq_manual_nopub (nd : Node) (h0 : nd.depth = 0) (a c i : Nat) (hc : c ≤ 1)
+    (hp : pubDerivationSupported nd = false) :
+    b44Step purpose coinIdx ⟨[harden a, harden c, harden i], false⟩ nd .deriveDefault =
+      b44Run purpose coinIdx defPath nd [.purpose, .coin, .account a, .change c, .addrIdx i] := by
+  have := defaultPath_eq_manual purpose coinIdx defPath nd h0 a c i hc
+  simpa [hp] using this
+
+/-! ### 6. public-only objects -/
+
+/-- at its own level every well-typed single-level op *is* `ChildKey` at the prescribed index, for
+every node (private or public-only): the constructor check after it never fires -/
+theorem step_eq_childKey (nd : Node) (op : B44Op) (idx : Nat)
+    (hi : b44ChildIdx purpose coinIdx (pubDerivationSupported nd) op = some idx)
+    (ht : op.typeOk = true) (hl : op.level = some nd.depth) :
+    b44Step purpose coinIdx defPath nd op = childKey nd idx :=
+  b44Step_eq_childKey purpose coinIdx defPath nd op idx hi ht hl
+
+/-- **public-only objects above the account level** (reachable only through `.neuter`) refuse
+`Purpose`/`Coin`/`Account` at the matching level with `Bip32KeyError` (indices within 32 bits) -/
+theorem step_public_hardened_refused (nd : Node) (hp : nd.priv = none) :
+    (nd.depth = 0 → purpose < 2 ^ 32 →
+      b44Step purpose coinIdx defPath nd .purpose = .error .key) ∧
+    (nd.depth = 1 → coinIdx < 2 ^ 32 →
+      b44Step purpose coinIdx defPath nd .coin = .error .key) ∧
+    (∀ i, nd.depth = 2 → i < 2 ^ 32 →
+      b44Step purpose coinIdx defPath nd (.account i) = .error .key) := by
+  refine ⟨fun h hi => ?_, fun h hi => ?_, fun i h hi => ?_⟩
+  · rw [b44Step_eq_childKey purpose coinIdx defPath nd _ _ rfl rfl (by simp [B44Op.level, h])]
+    exact childKey_pub_hardened nd _ hp (harden_lt _ hi) (isHardened_harden _)
+  · rw [b44Step_eq_childKey purpose coinIdx defPath nd _ _ rfl rfl (by simp [B44Op.level, h])]
+    exact childKey_pub_hardened nd _ hp (harden_lt _ hi) (isHardened_harden _)
+  · rw [b44Step_eq_childKey purpose coinIdx defPath nd _ _ rfl rfl (by simp [B44Op.level, h])]
+    exact childKey_pub_hardened nd _ hp (harden_lt _ hi) (isHardened_harden _)
+
+/-- with public derivation support, `Change`/`AddressIndex` at their level succeed or fail exactly as
+`ChildKey` at the plain (non-hardened) index does — for public-only and private objects alike -/
+theorem step_public_change_addr (nd : Node) (hs : pubDerivationSupported nd = true) :
+    (∀ c, c ≤ 1 → nd.depth = 3 →
+      b44Step purpose coinIdx defPath nd (.change c) = childKey nd c) ∧
+    (∀ i, nd.depth = 4 → b44Step purpose coinIdx defPath nd (.addrIdx i) = childKey nd i) := by
+  refine ⟨fun c hc h => ?_, fun i h => ?_⟩
+  · rw [b44Step_eq_childKey purpose coinIdx defPath nd _ _ rfl (by simp [B44Op.typeOk, hc])
+      (by simp [B44Op.level, h])]
+    simp [hs]
+  · rw [b44Step_eq_childKey purpose coinIdx defPath nd _ _ rfl rfl (by simp [B44Op.level, h])]
+    simp [hs]
+
+/-- without public derivation support (SLIP-0010 ed25519 curves) a public-only object refuses
+`Change`/`AddressIndex` at their level with `Bip32KeyError`: the index is hardened -/
+theorem step_public_change_addr_refused (nd : Node) (hp : nd.priv = none)
+    (hs : pubDerivationSupported nd = false) :
+    (∀ c, c ≤ 1 → nd.depth = 3 →
+      b44Step purpose coinIdx defPath nd (.change c) = .error .key) ∧
+    (∀ i, i < 2 ^ 32 → nd.depth = 4 →
+      b44Step purpose coinIdx defPath nd (.addrIdx i) = .error .key) := by
+  refine ⟨fun c hc h => ?_, fun i hi h => ?_⟩
+  · rw [b44Step_eq_childKey purpose coinIdx defPath nd _ _ rfl (by simp [B44Op.typeOk, hc])
+      (by simp [B44Op.level, h])]
+    simp only [hs, Bool.false_eq_true, if_false]
+    exact childKey_pub_hardened nd _ hp (harden_lt _ (by omega)) (isHardened_harden _)
+  · rw [b44Step_eq_childKey purpose coinIdx defPath nd _ _ rfl rfl (by simp [B44Op.level, h])]
+    simp only [hs, Bool.false_eq_true, if_false]
+    exact childKey_pub_hardened nd _ hp (harden_lt _ hi) (isHardened_harden _)
+
+/-- the 32-bit range check of `Bip32KeyIndex` comes first: an out-of-range index at the matching
+level is a `ValueError`, whatever the key material (this is why the refusals above need the
+`< 2^32` hypotheses) -/
+theorem step_index_out_of_range (nd : Node) (op : B44Op) (idx : Nat)
+    (hi : b44ChildIdx purpose coinIdx (pubDerivationSupported nd) op = some idx)
+    (ht : op.typeOk = true) (hl : op.level = some nd.depth) (hr : 2 ^ 32 ≤ idx) :
+    b44Step purpose coinIdx defPath nd op = .error .value := by
+  rw [b44Step_eq_childKey purpose coinIdx defPath nd op idx hi ht hl]
+  exact childKey_idx_ge nd idx hr
+
+/-- SLIP-0010 ed25519 curves never derive from a public-only object, at any level, with any
+in-range index: `Bip32KeyError` -/
+theorem step_public_ed25519_refused (nd : Node) (op : B44Op) (idx : Nat) (hp : nd.priv = none)
+    (hs : pubDerivationSupported nd = false)
+    (hi : b44ChildIdx purpose coinIdx false op = some idx)
+    (ht : op.typeOk = true) (hl : op.level = some nd.depth) (hr : idx < 2 ^ 32) :
+    b44Step purpose coinIdx defPath nd op = .error .key := by
+  rw [b44Step_eq_childKey purpose coinIdx defPath nd op idx (by rw [hs]; exact hi) ht hl]
+  obtain ⟨h1, h2⟩ := (pubDerivationSupported_false_iff nd).1 hs
+  exact childKey_slip10_ed_pub nd idx h1 h2 hp hr
+
 end BipVerif.Props.C07
